@@ -625,5 +625,6 @@ def run(chk, prog):
         n1 += k
         helpers[name] = wh
     chk.floor("N1+N2", n1, 40)
-    from . import c16_cart
+    from . import c16_cart, c16_amr
     c16_cart.run(chk, prog, lib)
+    c16_amr.run(chk, lib)
